@@ -469,7 +469,7 @@ FUZZ_TARGETS = {"norm": (_fuzz_norm, lambda c: True, None)}
 
 def campaigns(tier, seed):
     cs = [
-        Campaign("coverage-guided", F.fuzz_campaign("norm", runs=(2500, 150000), max_len=80, dictionary=F.URL_DICT, corpus=["\xff\x0b" + c for c in F.URL_CORPUS]), "atheris",
+        Campaign("coverage-guided", F.fuzz_campaign("norm", runs=(2500, 150000), max_len=80, dictionary=F.URL_DICT, corpus=["\xff\x0b" + c for c in F.URL_CORPUS]), F.ENGINE,
                  bounds="libFuzzer over 2 option bytes + a UTF-8 string <= 78 bytes: unparseable strings must come back unchanged, parseable ones (no redirection) go through the component oracle"),
         Campaign("panel-option-deviations", _deviations, "enumeration", exhaustive=True,
                  bounds="%d URLs (incl. %d unparseable) x (defaults + all single + all pairwise option deviations) x quoted" % (len(PANEL) + len(UNPARSEABLE), len(UNPARSEABLE))),
